@@ -228,34 +228,44 @@ def r4_default_formula(ctx, res):
     loc = f.module.loc(f.node)
     key = f.key
     res.inst(key, loc, 'default-mode scope formula')
-    ifs = [n for n in f.node.body if isinstance(n, ast.If)]
-    if len(ifs) != 1 or not (is_self_attr(getattr(ifs[0].test, 'value', None), '_wordnet')
-                             and getattr(ifs[0].test, 'attr', '') == '_default_mode'):
-        res.find(key, loc, '_get_lexicon_ids no longer branches on self._wordnet._default_mode')
-        return
-    node = ifs[0]
-    rets_t = [n for n in ast.walk(ast.Module(body=node.body, type_ignores=[])) if isinstance(n, ast.Return)]
-    rets_f = [n for n in ast.walk(ast.Module(body=node.orelse or f.node.body[f.node.body.index(node) + 1:],
-                                             type_ignores=[])) if isinstance(n, ast.Return)]
-    if len(rets_t) != 1 or len(rets_f) != 1:
-        res.find(key, loc, 'unexpected shape of _get_lexicon_ids (expected one return per mode)')
+    from ..speccheck import view
+    v = view(ctx, '_core', f'{ELEMENT_BASE}._get_lexicon_ids')
+    rets = [r for r in v.rows if r[0] == 'return']
+    rets_t = [r for r in rets if r[2] == frozenset({'self._wordnet._default_mode'})]
+    rets_f = [r for r in rets if r[2] == frozenset({'not self._wordnet._default_mode'})]
+    if len(rets) != 2 or len(rets_t) != 1 or len(rets_f) != 1:
+        res.find(key, loc, f'_get_lexicon_ids no longer branches on self._wordnet._default_mode with one result per mode: '
+                           f'{[(r[1][:60], sorted(r[2])) for r in rets]}')
         return
     leaves = set()
-    for n in ast.walk(rets_t[0].value):
+    tv = rets_t[0][4].rhs
+    for n in ast.walk(tv):
         if isinstance(n, ast.Call) and isinstance(n.func, ast.Name) and n.func.id.startswith('get_lexicon_'):
             args = [norm(a) for a in n.args] + [f'{k.arg}={norm(k.value)}' for k in n.keywords]
             leaves.add(f'{n.func.id}({",".join(args)})')
-        elif is_self_attr(n, '_lexid') and not isinstance(getattr(n, '_parent', None), ast.Call):
+    inner_calls = {id(x) for n in ast.walk(tv) if isinstance(n, ast.Call) and isinstance(n.func, ast.Name) and n.func.id.startswith('get_lexicon_')
+                   for x in ast.walk(n)}
+    for n in ast.walk(tv):
+        if id(n) in inner_calls:
+            continue
+        if is_self_attr(n, '_lexid'):
             leaves.add('self._lexid')
         elif isinstance(n, ast.Attribute) and not is_self_attr(n, '_lexid') and not is_self_attr(n):
             leaves.add(norm(n))
     want = {'self._lexid', 'get_lexicon_extension_bases(self._lexid)', 'get_lexicon_extensions(self._lexid)'}
+    # all three are always part of the scope: none of them may sit under `or` / `and` / a conditional expression
+    for n in ast.walk(tv):
+        if isinstance(n, (ast.BoolOp, ast.IfExp)) and any(isinstance(x, ast.Call) and isinstance(x.func, ast.Name) and x.func.id.startswith('get_lexicon_')
+                                                          or is_self_attr(x, '_lexid') for x in ast.walk(n)):
+            res.find(key + ':combination', loc, f'the default-mode scope combines its parts with `{norm(n)[:90]}`: the bases and the extensions of the '
+                                                f"entity's lexicon (and the lexicon itself) must all be in scope at once - with `or` a lexicon in the "
+                                                f'middle of a chain of extensions loses one direction, and the inverse navigations disagree')
+            break
     if leaves != want:
         res.find(key, loc, f'default-mode scope is built from {sorted(leaves)}; the property requires exactly the '
                            f"entity's own lexicon, all its extension bases and all its extensions {sorted(want)}")
-    fv = rets_f[0].value
-    if not (isinstance(fv, ast.Attribute) and fv.attr == '_lexicon_ids' and is_self_attr(fv.value, '_wordnet')):
-        res.find(key + ':restricted', loc, f'restricted-mode scope is `{norm(fv)}`, expected self._wordnet._lexicon_ids')
+    if rets_f[0][1] != 'self._wordnet._lexicon_ids':
+        res.find(key + ':restricted', loc, f'restricted-mode scope is `{rets_f[0][1]}`, expected self._wordnet._lexicon_ids')
     # the two recursive extension queries must be unbounded by default
     for name in ('get_lexicon_extension_bases', 'get_lexicon_extensions'):
         qf = ctx.repo.func('_queries', name)
